@@ -308,6 +308,14 @@ def _x86_helper(op, a, c, e):
             q = z3.UDiv(big, dd)
             r = z3.URem(big, dd)
         return z3.Extract(n - 1, 0, q if what == 'div' else r)
+    if op in ('bsf', 'bsr') and len(a) == 1:
+        # the lifter's unary form: index of the lowest/highest set bit; unconstrained when the source is 0
+        n = a[0].size()
+        r = c.uf(op + '_undef', [], n)
+        rng = range(n - 1, -1, -1) if op == 'bsf' else range(n)
+        for i in rng:
+            r = z3.If(z3.Extract(i, i, a[0]) == 1, z3.BitVecVal(i, n), r)
+        return r
     if op in ('bsf', 'bsr') and len(a) == 2:
         # bsf/bsr(default, src): index of lowest/highest set bit of src; default when src == 0
         n = a[1].size()
